@@ -15,6 +15,14 @@ def mc(module, cfg=None, **kw):
 
 PROPS = {}
 
+
+def sim(module, cfg, num, depth, kind, field='ops', **kw):
+    """GEN job: TLC -simulate writes `num` behaviours; each becomes a driver case {k: kind, in: {field: behaviour}}."""
+    d = dict(module=module, cfg=cfg, extra=['-simulate', 'num=%d' % num, '-depth', str(depth), '-seed', '{seed}'],
+             to_case=lambda obj, n: {'c': n, 'k': kind, 'in': {field: obj}})
+    d.update(kw)
+    return d
+
 PROPS['C15'] = dict(
     trace=dict(module='Trace_TailBitmap', cfg='Trace_TailBitmap.cfg'),
     mc=dict(quick=[mc('MC_TailBitmap', 'MC_TailBitmap_q.cfg', expect_min_distinct=10000)],
@@ -25,4 +33,19 @@ PROPS['C15'] = dict(
          'every call is one trace event with the projected state (Offset, len(Words), stored 1-bits) judged by Trace_TailBitmap; '
          'distinct = distinct operation sequences (sha256 of the inputs), non-trivial = at least one call after New',
     assumptions=TRUST + ['Get/Get1 are probed only at indexes up to the highest index ever set (the property\'s own domain)'],
+)
+
+PROPS['C18'] = dict(
+    trace=dict(module='Trace_SectionWriter', cfg='Trace_SectionWriter.cfg'),
+    mc=dict(quick=[mc('MC_SectionWriter', 'MC_SectionWriter_q.cfg', expect_min_distinct=5000)],
+            thorough=[mc('MC_SectionWriter', 'MC_SectionWriter.cfg', expect_min_distinct=5000)]),
+    need_kinds=['sw'],
+    gen=dict(quick=[sim('Gen_SectionWriter', 'Gen_SectionWriter.cfg', 400, 20, 'sw')],
+             thorough=[sim('Gen_SectionWriter', 'Gen_SectionWriter_t.cfg', 10000, 24, 'sw', shards=8)]),
+    rule='a case is one SectionWriter/AtToWriter history over a scripted underlying io.WriterAt (accepts k bytes, optionally fails): '
+         'seeded sequences of Write/WriteAt/Seek/Size with buffers ending exactly at, one before and beyond the section end, every whence incl. invalid ones, '
+         'offsets before the section start, cursor probes by Seek(0,SeekCurrent); every call is one trace event (arguments, returned count, error class, every underlying call with offset and bytes) '
+         'judged by Trace_SectionWriter; distinct = distinct operation sequences, non-trivial = at least one call after New',
+    assumptions=TRUST + ['the underlying writer obeys io.WriterAt (accepts at most what it is offered, reports an error when it accepts less)',
+                         'offsets are below 2^29 (TLC integers); AtToWriter is exercised without SeekEnd (its limit is MaxInt64 by construction)'],
 )
